@@ -32,7 +32,6 @@ static bool get_str(FILE* f, std::string& s) {
 }
 
 struct GenRec { std::string label, script, file; };   // label = type name or sample file name
-struct OutRec { uint32_t rc = 0; int32_t consumed_ok = 0; std::string bytes; };
 
 static const VerCfg* find_ver(const std::string& n) {
 	for (auto& v : all_versions()) if (n == v.name) return &v;
@@ -50,6 +49,31 @@ static std::vector<std::string> split(const std::string& s, char c) {
 	return r;
 }
 
+// Load a file, check the reader stops at the footer, re-encode.  The same routine gives the writing
+// build's own verdict on its file (self) and the other build's verdict (recode role).
+struct Verdict { uint32_t rc = 0, extent_ok = 0, same = 0; uint64_t hash = 0; };
+static Verdict recode_one(const std::string& file) {
+	Verdict v;
+	NifFile n;
+	long long consumed = 0;
+	v.rc = (uint32_t) s1::load(n, file, &consumed);
+	v.extent_ok = (v.rc == 0 && consumed == (long long) file.size() - 8) ? 1 : 0;
+	if (v.rc == 0 && v.extent_ok) { // a reader that lost its place would re-encode garbage of arbitrary size
+		std::string out = s1::save(n, true);
+		v.same = out == file;
+		v.hash = vf::fnv(out);
+	}
+	return v;
+}
+static void put_verdict(FILE* f, const Verdict& v) { put_u32(f, v.rc); put_u32(f, v.extent_ok); put_u32(f, v.same); fwrite(&v.hash, 8, 1, f); }
+static bool get_verdict(FILE* f, Verdict& v) { return get_u32(f, v.rc) && get_u32(f, v.extent_ok) && get_u32(f, v.same) && fread(&v.hash, 8, 1, f) == 1; }
+static void emit_record(FILE* out, const std::string& label, const std::string& script, const std::string& file) {
+	put_str(out, label);
+	put_str(out, script);
+	put_str(out, file);
+	put_verdict(out, recode_one(file));
+}
+
 // ---- role gen ----
 static void gen_type(const std::string& type, const VerCfg& vc, int bound, bool wide, FILE* out, bool per_exec_fork) {
 	ExploreCfg cfg;
@@ -58,7 +82,7 @@ static void gen_type(const std::string& type, const VerCfg& vc, int bound, bool 
 	explore(cfg, [&](const Script& s) -> std::vector<Point> {
 		if (!per_exec_fork) {
 			s1::Built b = s1::build_s1(type, vc, s, wide);
-			if (b.ok) { put_str(out, type); put_str(out, script_json(s).dump()); put_str(out, b.file); }
+			if (b.ok) emit_record(out, type, script_json(s).dump(), b.file);
 			return b.points;
 		}
 		// fork per execution: a fault inside the reader rejects this input only
@@ -74,6 +98,8 @@ static void gen_type(const std::string& type, const VerCfg& vc, int bound, bool 
 			fwrite(&n, 4, 1, p);
 			if (n) fwrite(b.points.data(), sizeof(Point), n, p);
 			put_str(p, b.ok ? b.file : std::string());
+			fflush(p);
+			if (b.ok) put_verdict(p, recode_one(b.file)); // may die: then the parent sees a file without a verdict
 			fclose(p);
 			_exit(0);
 		}
@@ -86,11 +112,11 @@ static void gen_type(const std::string& type, const VerCfg& vc, int bound, bool 
 		int status = 0;
 		waitpid(pid, &status, 0);
 		std::vector<Point> pts;
-		if (!(WIFEXITED(status) && WEXITSTATUS(status) == 0) || buf.size() < 4) {
+		if (!(WIFEXITED(status) && WEXITSTATUS(status) == 0)) {
 			std::string p = A.rundir + "/san." + std::to_string(pid);
 			unlink(p.c_str());
-			return pts;
 		}
+		if (buf.size() < 4) return pts;
 		uint32_t n;
 		memcpy(&n, buf.data(), 4);
 		size_t off = 4 + (size_t) n * sizeof(Point);
@@ -99,7 +125,20 @@ static void gen_type(const std::string& type, const VerCfg& vc, int bound, bool 
 		if (n) memcpy(pts.data(), buf.data() + 4, (size_t) n * sizeof(Point));
 		uint32_t flen;
 		memcpy(&flen, buf.data() + off, 4);
-		if (flen && buf.size() >= off + 4 + flen) { put_str(out, type); put_str(out, script_json(s).dump()); put_str(out, buf.substr(off + 4, flen)); }
+		if (flen && buf.size() >= off + 4 + flen) {
+			put_str(out, type);
+			put_str(out, script_json(s).dump());
+			put_str(out, buf.substr(off + 4, flen));
+			Verdict v;
+			v.rc = 999; // the writing build itself died on its own file
+			if (buf.size() >= off + 4 + flen + 20) {
+				memcpy(&v.rc, buf.data() + off + 4 + flen, 4);
+				memcpy(&v.extent_ok, buf.data() + off + 8 + flen, 4);
+				memcpy(&v.same, buf.data() + off + 12 + flen, 4);
+				memcpy(&v.hash, buf.data() + off + 16 + flen, 8);
+			}
+			put_verdict(out, v);
+		}
 		return pts;
 	});
 }
@@ -113,9 +152,7 @@ static int role_gen() {
 			std::string F0 = vf::read_file(A.repo + "/tests/" + rel);
 			NifFile n;
 			if (s1::load(n, F0) != 0) continue;
-			put_str(out, rel);
-			put_str(out, "[]");
-			put_str(out, s1::save(n, true));
+			emit_record(out, rel, "[]", s1::save(n, true));
 		}
 		fclose(out);
 		return 0;
@@ -153,22 +190,51 @@ static int role_gen() {
 }
 
 // ---- role recode ----
+// Children process the records in order; when one dies on record k, "died" is recorded for k and a
+// new child continues at k+1.
 static int role_recode() {
-	FILE* in = fopen(A.get("in").c_str(), "rb");
-	FILE* out = fopen(A.get("out").c_str(), "wb");
-	if (!in || !out) return 4;
-	GenRec g;
-	while (get_str(in, g.label) && get_str(in, g.script) && get_str(in, g.file)) {
-		NifFile n;
-		long long consumed = 0;
-		int rc = s1::load(n, g.file, &consumed);
-		put_u32(out, (uint32_t) rc);
-		put_u32(out, (uint32_t) (rc == 0 && consumed == (long long) g.file.size() - 8 ? 1 : 0));
-		put_str(out, rc == 0 ? s1::save(n, true) : std::string());
-		fflush(out);
+	std::vector<GenRec> recs;
+	{
+		FILE* in = fopen(A.get("in").c_str(), "rb");
+		if (!in) return 4;
+		GenRec g;
+		Verdict self;
+		while (get_str(in, g.label) && get_str(in, g.script) && get_str(in, g.file) && get_verdict(in, self)) recs.push_back(g);
+		fclose(in);
 	}
-	fclose(in);
-	fclose(out);
+	std::string outpath = A.get("out");
+	{ FILE* o = fopen(outpath.c_str(), "wb"); if (!o) return 4; fclose(o); }
+	size_t next = 0;
+	while (next < recs.size()) {
+		pid_t pid = fork();
+		if (pid == 0) {
+			FILE* out = fopen(outpath.c_str(), "ab");
+			for (size_t k = next; k < recs.size(); k++) {
+				put_verdict(out, recode_one(recs[k].file));
+				fflush(out);
+			}
+			fclose(out);
+			_exit(0);
+		}
+		int status = 0;
+		waitpid(pid, &status, 0);
+		if (WIFEXITED(status) && WEXITSTATUS(status) == 0) break;
+		std::string p = A.rundir + "/san." + std::to_string(pid);
+		unlink(p.c_str());
+		// how many verdicts made it to the file?
+		FILE* chk = fopen(outpath.c_str(), "rb");
+		fseek(chk, 0, SEEK_END);
+		long sz = ftell(chk);
+		fclose(chk);
+		size_t done = (size_t) sz / 20;
+		if (truncate(outpath.c_str(), (off_t) done * 20) != 0) return 5;
+		FILE* out = fopen(outpath.c_str(), "ab");
+		Verdict died;
+		died.rc = 999;
+		put_verdict(out, died);
+		fclose(out);
+		next = done + 1;
+	}
 	return 0;
 }
 
@@ -203,31 +269,31 @@ static void compare(const std::string& genfile, const std::string& outfile, cons
 	FILE* o = fopen(outfile.c_str(), "rb");
 	if (!g) return;
 	GenRec gr;
+	Verdict self;
 	size_t idx = 0;
-	while (get_str(g, gr.label) && get_str(g, gr.script) && get_str(g, gr.file)) {
-		OutRec orr;
-		uint32_t ok = 0;
-		bool have = o && get_u32(o, orr.rc) && get_u32(o, ok) && get_str(o, orr.bytes);
+	while (get_str(g, gr.label) && get_str(g, gr.script) && get_str(g, gr.file) && get_verdict(g, self)) {
+		Verdict other;
+		bool have = o && get_verdict(o, other);
 		J cj = J::obj().set("label", gr.label).set("version", u.version).set("direction", dir).set("script", J::parse(gr.script)).set("wide", A.geti("wide", 1) != 0);
 		std::string keybase = gr.label + ":" + (u.rfiles.empty() ? game_of(u.version) : std::string("file")) + ":" + dir;
+		std::string what = gr.label + " (" + u.version + ") " + dir;
 		st.add("evaluations");
 		distinct.insert(vf::fnv(gr.file));
 		if (!have) {
-			st.violation(keybase + ":reader-died", vf::strf("%s (%s) %s: the reading build died or stopped at record %zu (exit status %d)", gr.label.c_str(), u.version.c_str(), dir.c_str(), idx, recode_status), cj);
+			st.violation(keybase + ":reader-stopped", vf::strf("%s: the reading build produced no verdict for record %zu (exit status %d)", what.c_str(), idx, recode_status), cj);
 			break;
 		}
-		if (orr.rc != 0)
-			st.violation(keybase + ":load-fails", vf::strf("%s (%s) %s: Load of the other build's file returns %u", gr.label.c_str(), u.version.c_str(), dir.c_str(), orr.rc), cj);
-		else if (!ok)
-			st.violation(keybase + ":consumed-extent", vf::strf("%s (%s) %s: reader does not stop exactly at the footer of the other build's file", gr.label.c_str(), u.version.c_str(), dir.c_str()), cj);
-		else if (orr.bytes != gr.file) {
-			size_t n = std::min(orr.bytes.size(), gr.file.size()), k = 0;
-			while (k < n && orr.bytes[k] == gr.file[k]) k++;
-			st.violation(keybase + ":reencode-differs",
-						 vf::strf("%s (%s) %s: re-encoding differs: %zu vs %zu bytes, first difference at offset %zu", gr.label.c_str(), u.version.c_str(), dir.c_str(),
-								  gr.file.size(), orr.bytes.size(), k),
-						 cj);
-		}
+		// The file must mean the same to both builds: same load result, same consumed extent, same re-encoding.
+		// (Whether the writing build's own re-encoding equals the file is C01's question; files that are no fixed
+		// point for their own writer are counted, and still have to be treated identically by the other build.)
+		if (other.rc != self.rc)
+			st.violation(keybase + ":load-result-differs", vf::strf("%s: Load returns %u in the reading build, %u in the writing build", what.c_str(), other.rc, self.rc), cj);
+		else if (other.extent_ok != self.extent_ok)
+			st.violation(keybase + ":consumed-extent-differs", vf::strf("%s: the reading build %s at the footer, the writing build %s", what.c_str(), other.extent_ok ? "stops" : "does not stop", self.extent_ok ? "does" : "does not"), cj);
+		else if (other.hash != self.hash || other.same != self.same)
+			st.violation(keybase + ":reencode-differs", vf::strf("%s: the two builds re-encode the %zu byte file differently (identical to the file: reader %u, writer %u)", what.c_str(), gr.file.size(), other.same, self.same), cj);
+		if (self.rc == 0 && self.extent_ok && self.same) st.add("files_fixed_point_in_both_builds");
+		else st.add("files_not_a_fixed_point_for_their_own_writer");
 		if (st.samples.empty() && idx == 3) st.sample(cj.set("file_bytes", (long long) gr.file.size()));
 		idx++;
 	}
